@@ -109,6 +109,12 @@ func c20Overlap(a, b *rtp.Header, pa, pb []byte) string {
 	if overlaps(alo, ahi, blo, bhi) {
 		return "Extensions-list"
 	}
+	// elements stay in the list while the X flag is off (an application may toggle the exported field); reach their values anyway
+	xa, xb := a.Extension, b.Extension
+	if len(a.Extensions) > 0 && len(b.Extensions) > 0 {
+		a.Extension, b.Extension = true, true
+	}
+	defer func() { a.Extension, b.Extension = xa, xb }()
 	for _, ia := range a.GetExtensionIDs() {
 		va := a.GetExtension(ia)
 		alo, ahi = rangeOf(va)
@@ -243,6 +249,10 @@ func c20Prepare(r *fw.Rand, p *ref.Packet) (*rtp.Packet, error) {
 			}
 		}
 	}
+	if pk.Extension && len(pk.Extensions) > 0 && r.Chance(1, 10) {
+		// the exported X flag switched off while the elements stay in the list (switched on again by some of the mutations)
+		pk.Extension = false
+	}
 	if r.Chance(1, 3) {
 		// extension values whose backing arrays have spare capacity
 		for _, id := range pk.GetExtensionIDs() {
@@ -327,6 +337,16 @@ func c20Packet(c *fw.Ctx, i int) {
 			return
 		}
 		c.Count("clone_equal_and_disjoint", 1)
+		if !pk.Extension && len(pk.Extensions) > 0 {
+			// the X flag was off while cloning: switch it on again on both sides, the elements are the original's and the clone's own
+			pk.Extension, cl.Extension = true, true
+			so, sc = c20SnapPacket(pk), c20SnapPacket(cl)
+			if d := c20Same(so, sc); d != "" {
+				c.Fail("C20/packet/clone-not-equal/after-X-switched-on-again/"+sanitize(d), "cloned with the X flag off, then X switched on on both: they differ in "+d, wit("original", gen.Describe(so.desc), "clone", gen.Describe(sc.desc)))
+				return
+			}
+			c.Count("clones_taken_with_X_off_and_elements_present", 1)
+		}
 		// mutate one side (dir 0: the original, dir 1: the clone), watch the other
 		mutated, watched := pk, cl
 		watchedSnap := sc
@@ -400,6 +420,15 @@ func c20Header(c *fw.Ctx, i int) {
 			return
 		}
 		c.Count("clone_equal_and_disjoint", 1)
+		if !h.Extension && len(h.Extensions) > 0 {
+			h.Extension, cl.Extension = true, true
+			so, sc = c20SnapHeader(h), c20SnapHeader(&cl)
+			if d := c20Same(so, sc); d != "" {
+				c.Fail("C20/header/clone-not-equal/after-X-switched-on-again/"+sanitize(d), "cloned with the X flag off, then X switched on on both: they differ in "+d, wit("original", gen.Describe(so.desc), "clone", gen.Describe(sc.desc)))
+				return
+			}
+			c.Count("clones_taken_with_X_off_and_elements_present", 1)
+		}
 		mutated, watched := h, &cl
 		watchedSnap := sc
 		side := "original-mutated"
